@@ -119,3 +119,54 @@ func registerStd(e *Engine) {
 }
 
 var _ *ssa.Function
+
+// math/bits on symbolic operands: compact ite chains instead of the 256-entry
+// table lookups of the pure-Go fallbacks.
+func bitsLen(x *Term) *Term {
+	// Len(x) = index of highest set bit + 1
+	res := ConstT(64, 0)
+	for i := 0; i < x.W; i++ {
+		bit := Eq(Extract(x, i, i), ConstT(1, 1))
+		res = Ite(bit, ConstT(64, uint64(i+1)), res)
+	}
+	return res
+}
+
+func bitsTrailingZeros(x *Term) *Term {
+	res := ConstT(64, uint64(x.W))
+	for i := x.W - 1; i >= 0; i-- {
+		bit := Eq(Extract(x, i, i), ConstT(1, 1))
+		res = Ite(bit, ConstT(64, uint64(i)), res)
+	}
+	return res
+}
+
+func registerBits(e *Engine) {
+	x := e.externals
+	for _, w := range []string{"", "8", "16", "32", "64"} {
+		width := 64
+		switch w {
+		case "8":
+			width = 8
+		case "16":
+			width = 16
+		case "32":
+			width = 32
+		}
+		x["math/bits.Len"+w] = func(p *Path, th *Thread, fr *frame, a []Value) Value { return bitsLen(a[0].(*Term)) }
+		x["math/bits.LeadingZeros"+w] = func(p *Path, th *Thread, fr *frame, a []Value) Value {
+			return Bin(OpSub, ConstT(64, uint64(width)), bitsLen(a[0].(*Term)))
+		}
+		x["math/bits.TrailingZeros"+w] = func(p *Path, th *Thread, fr *frame, a []Value) Value {
+			return bitsTrailingZeros(a[0].(*Term))
+		}
+		x["math/bits.OnesCount"+w] = func(p *Path, th *Thread, fr *frame, a []Value) Value {
+			t := a[0].(*Term)
+			res := ConstT(64, 0)
+			for i := 0; i < t.W; i++ {
+				res = Bin(OpAdd, res, ZExt(Extract(t, i, i), 64))
+			}
+			return res
+		}
+	}
+}
